@@ -21,16 +21,18 @@ THEOREMS = ["PyOak.Legacy.C18." + t for t in [
     "detachGo_facts", "inv_of_detachFacts", "detachGo_invX", "detachGo_inv", "commitOne_inv", "attachPlan_facts",
     "commit_prefix", "attach_invX", "attach_inv", "construct_invX", "construct_inv", "duplicate_ok",
     "clearParent_invX", "setContentId_invX", "resetContentId_inv", "kidsPos_swap", "swapped_invX",
-    "swapped_cid_parent", "replaceChild_some_inv", "replace_inv_parent", "detachGo_desc",
+    "swapped_cid_parent", "replaceChild_some_inv", "replace_inv_parent", "detachGo_desc", "upFree_of_desc",
+    "not_desc_of_upFree", "posFrom_mem_iff", "shiftDown_mem", "replaceChild_none",
     "replaceWith_inv_parent_some",
 ]]
 PARTIAL = [
     "inv_step_rwith_partial / inv_step_rwith_parent_partial: replace_with() is proved (a) for receivers without a "
     "parent and new = None or a detached node, (b) for receivers WITH a parent and new = a detached node under the "
-    "hypothesis that the parent is not a descendant of the receiver (no cycle through the receiver); missing: "
-    "receiver with a parent and new = None (the removing variant of _replace_child with its index shift), new = an "
-    "ATTACHED root (its children's parent ids dangle while the ids are swapped), and dropping the acyclicity "
-    "hypothesis (on a cyclic heap the detach of the receiver's subtree runs into the parent; to show: it does not end)",
+    "hypothesis that the parent is not a descendant of the receiver (no cycle through the receiver; in LOp.proved it is "
+    "the computable check `upFree`: walking up from the parent reaches a root without meeting the receiver); missing: "
+    "receiver with a parent and new = None -- Props/LegacyRemove.lean has the pieces (positions of a sequence field, "
+    "shiftDown, replaceChild_none) and the stated, not yet proved `removed_invX`; new = an ATTACHED root (its "
+    "children's parent ids dangle while the ids are swapped); and dropping the acyclicity hypothesis",
     "inv_run_partial / inv_run_init_partial: induction over histories whose steps lie in the proved fragment: ALL of "
     "construct / attach / detach / detach_self / duplicate / replace (any receiver), and replace_with as above; side "
     "condition of construct / replace: distinct child-field names, single fields hold at most one node",
